@@ -15,8 +15,8 @@ MC_SCHED = {"quick": dict(Workers="{1, 2, 3}", MaxRows=4), "thorough": dict(Work
 MC_HASH = {"quick": dict(Labels="{0, 1, 2}", MaxW=2), "thorough": dict(Labels="{0, 1, 2, 3}", MaxW=2)}
 GEN = {"quick": dict(MaxLatN=3, MaxX=1, MaxL=2, Seeds="{1, 2}", Tier='"quick"'),
        "thorough": dict(MaxLatN=4, MaxX=2, MaxL=2, Seeds="{1, 2, 3}", Tier='"thorough"')}
-SCHED_INVS = ["InvBarrier", "InvCells", "InvReduce", "InvCaller"]
-SCHED_ACTIONS = ["SBegin", "SWrite", "SBarrier", "SRedBegin", "SRedRow", "SRedEnd", "SSum"]
+SCHED_INVS = ["InvBarrier", "InvCells", "InvReduce", "InvCaller", "InvVal", "InvFine"]
+SCHED_ACTIONS = ["SBegin", "SWrite", "SBarrier", "SRedBegin", "SRedRow", "SRedEnd", "SSum", "SVal"]
 HASH_INVS = ["InvModal", "InvSum"]
 HASH_ACTIONS = ["HVisit", "HDone"]
 DUMMY = dict(Workers="{0}", MaxRows=1, Mode='"seq_reduce"', Labels="{0}", MaxW=1, Policy='"ordered"')
@@ -102,9 +102,21 @@ def nontrivial(trace):
                     if len(tids) >= 2:
                         return True
         return False
+    if kind == "hookbig":   # coarse hook events: non-trivial when the reductions of a >= 8192-row fit were observed
+        return inp["data"]["n"] >= 8192 and any(h[0] in (7, 10) for ev in trace["ev"] for h in ev.get("par", []))
     if kind == "big":
         return inp["data"]["n"] >= 1000
     return True
+
+
+def val_hook_in_source():
+    """hook v2 (docs/reports/C20-hook2.diff): the value of every inertia reduction is reported"""
+    p = os.path.join(vlib.REPO, "algorithms/linfa-clustering/src/k_means/algorithm.rs")
+    try:
+        with open(p) as f:
+            return "verif::value(" in f.read()
+    except OSError:
+        return False
 
 
 def hook_in_source():
@@ -173,6 +185,7 @@ def attach_diag(ctx):
 def trace_constants(req_hook):
     c = dict(DUMMY)
     c["RequireHook"] = "TRUE" if req_hook else "FALSE"
+    c["RequireVal"] = "TRUE" if (req_hook and val_hook_in_source()) else "FALSE"
     return c
 
 
@@ -207,15 +220,17 @@ def run(ctx):
     attach_diag(ctx)
     nruns = sum(len(t["ev"]) for t in traces)
     split = sum(1 for t in traces if t["kind"] == "hook" and nontrivial(t))
+    nvals = sum(1 for t in traces for ev in t["ev"] for h in ev.get("par", []) if h[0] == 10)
+    ctx.extra.update({"value_events": nvals, "value_hook_bound": bool(val_hook_in_source() and nvals > 0)})
     ctx.extra.update({"runs_executed": nruns, "hook_events": nhook, "hook_bound": bool(req_hook and nhook > 0),
                       "hook_cases_with_loop_split_over_threads": split,
-                      "families": {k: sum(1 for t in traces if t["kind"] == k) for k in ("tie", "frac", "blob", "hook", "big")}})
+                      "families": {k: sum(1 for t in traces if t["kind"] == k) for k in ("tie", "frac", "blob", "hook", "hookbig", "big")}})
     ctx.rule = ("cases = configurations (estimator variant x data x seed) enumerated by TLC (Gen_Determinism: all labelled lattice "
                 "data sets up to the tier's size x tie-sensitive estimators; the whole catalogue x generated data; k-means family with "
-                "hook / on large data) [+ seeded random configurations in the thorough tier], each run under its plan of environments "
+                "hook on small data (row by row) and on >= 9000 rows (loops coarse, reductions + their values) / on large data up to 20000-40000 rows) [+ seeded random configurations in the thorough tier], each run under its plan of environments "
                 "(pool sizes 1,2,3,8,16 + global pool for rayon users, repetitions, 2-3 fresh processes). Non-trivial: tie family = "
                 "duplicate rows with different labels or tied class counts; hook family = some parallel loop observed on >= 2 threads; "
-                "big family = >= 1000 rows; frac and blob families = every configuration; distinct by (family, input)")
+                "hookbig family = reductions of a >= 8192-row fit observed; big family = >= 1000 rows; frac and blob families = every configuration; distinct by (family, input)")
     ctx.trusted = ["TLC + CommunityModules Json", "harness digests (FNV-1a over exact bit patterns; canonical serde JSON of whole models)",
                    "harness data generator (integer LCG) -- its output is digested into every run, the premise 'same data' is checked by TLC",
                    "linfa::verif_hook event buffer (arrival order under a mutex)"]
